@@ -252,7 +252,7 @@ def _fstream_run(F, fn, stream_field, entry_state, depth=2):
     """One pass of the failed-stream state machine over fn entered in `entry_state`.
     Returns (states reaching a normal exit, [(block, kind)] exits reached with the stream possibly failed, reads seen)."""
     g = CFG(fn)
-    st = ("mem", ("this",), stream_field)
+    st = stream_field if isinstance(stream_field, tuple) else ("mem", ("this",), stream_field)
     # forward may-analysis: state in {"ok", "maybe"} per block entry
     IN = {g.entry: entry_state}
     work = [g.entry]
@@ -282,6 +282,23 @@ def _fstream_run(F, fn, stream_field, entry_state, depth=2):
                     if not any(x["k"] == "CXXMemberCallExpr" and x.get("fname") in ("read", "clear") and "obj" in x and cal.term(x["obj"]) == st for x in cal.nodes):
                         continue
                     es, be, rn, _g = _fstream_run(F, cal, stream_field, s, depth - 1)
+                    reads += rn
+                    if be:
+                        bad_exits.append((b, "throw (inside %s)" % cal.name))
+                    s = "maybe" if ("maybe" in es or not es) else "ok"
+            elif nd["k"] in ("CallExpr", "CXXMemberCallExpr") and depth > 0 and any(fn.term(a) == st for a in nd.get("args", [])):
+                # a helper handed the stream itself (`ReadAndClearErrors(file, buffer, size)`): inside it the stream is the
+                # reference parameter; the state it leaves on its normal exits
+                for cal in F.callees(nd):
+                    if not cal.cfg or cal.key == fn.key:
+                        continue
+                    ix = [i for i, a in enumerate(nd["args"]) if fn.term(a) == st and i < len(cal.params) and cal.params[i].get("ref")]
+                    if len(ix) != 1:
+                        continue
+                    pv = ("var", cal.params[ix[0]]["n"], cal.params[ix[0]]["d"])
+                    if not any(x["k"] == "CXXMemberCallExpr" and x.get("fname") in ("read", "clear") and "obj" in x and cal.term(x["obj"]) == pv for x in cal.nodes):
+                        continue
+                    es, be, rn, _g = _fstream_run(F, cal, pv, s, depth - 1)
                     reads += rn
                     if be:
                         bad_exits.append((b, "throw (inside %s)" % cal.name))
